@@ -109,6 +109,23 @@ def exc_name(e):
     return t.__name__
 
 
+class _Recorder:
+    def __init__(self, name, handler, attrs):
+        self.__dict__["_calls"] = []
+        self.__dict__["_handler"] = handler
+        self.__dict__["_name"] = name
+        self.__dict__.update(attrs)
+
+    def __getattr__(self, n):
+        if n.startswith("__"):
+            raise AttributeError(n)
+
+        def m(*a, **k):
+            self._calls.append((n, a, k))
+            return self._handler(n, a, k) if self._handler else None
+        return m
+
+
 class Ctx:
     def __init__(self, model, harness, case):
         self.model = model
@@ -154,6 +171,12 @@ class Ctx:
 
     def fill(self, value, length):
         return bytes([value]) * length
+
+    def recorder(self, name, handler=None, **attrs):
+        return _Recorder(name, handler, attrs)
+
+    def calls(self, rec):
+        return rec._calls
 
     def bytes_of(self, items):
         return bytes(items)
